@@ -24,7 +24,8 @@ var c04Cfg = kit.WorldCfg{Stores: []kit.StoreCfg{
 	{Name: "kn", RefTo: "kt", RefWiring: kit.WireFkIndexNullable},
 	{Name: "kx", RefTo: "kt", RefWiring: kit.WireConstraintNone},
 	{Name: "kd", RefTo: "kt", RefWiring: kit.WireFkIndexCascade},
-}, Children: []kit.ChildCfg{{Name: "kt", Parent: "targets"}}}
+	// "bk" is a child store over the referrer store bn: the non-nullable reference is declared on its parent
+}, Children: []kit.ChildCfg{{Name: "kt", Parent: "targets"}, {Name: "bk", Parent: "bn"}}}
 
 // ids mixing plain ones with ids containing quotes, backslashes, filter keywords, control characters
 var c04IDs = []string{"t1", "t2", "t3", "t", "t10", "a", "a b c", `a"b`, `a\b`, `a\\nb`, `x" or true or ref = "`, "true", "null", "and", "not in", "a b", "[1]", "datetime(", "ünï", "l1\nl2", "tab\tx", "ctl\x01x", `"`, `\`}
@@ -125,6 +126,9 @@ func genC04(t *rapid.T) kit.History {
 				op.Spec.Ref = kit.Sp(pool[rapid.IntRange(0, len(pool)-1).Draw(t, l+"_refpick")])
 			}
 		}
+		if store == "bn" && rapid.IntRange(0, 2).Draw(t, l+"_viaChild") == 0 {
+			op.Store = "bk" // the same operation issued through the child store
+		}
 		return op
 	})
 }
@@ -154,6 +158,31 @@ func genC04Full(t *rapid.T) kit.History {
 			kit.Op{Kind: "delete", Store: "targets", ID: target},
 			kit.Op{Kind: "create", Store: store, ID: "s1", Spec: &kit.EntSpec{Name: "n", Ref: kit.Sp(target)}})
 		h.Txs = append(h.Txs, tx)
+		return h
+	}
+	if rapid.IntRange(0, 4).Draw(t, "swapReferrer") == 0 {
+		// one transaction: a new referrer of a target is added, then another referrer of the same target is deleted
+		// (the target's back-reference set is written twice in the transaction and must end up holding the newcomer)
+		m := replayModel(h)
+		for _, store := range []string{"an", "bn", "ec", "kn", "kd", "cn"} {
+			for _, rid := range sortedIDs(m.Ents[store]) { // sorted: the generator must not depend on map order
+				e := m.Ents[store][rid]
+				if e.Ref == nil || *e.Ref == "" {
+					continue
+				}
+				newID := "swap-new"
+				if _, exists := m.Ents[store][newID]; exists {
+					continue
+				}
+				tx := kit.TxSpec{Ops: []kit.Op{
+					{Kind: "create", Store: store, ID: newID, Spec: &kit.EntSpec{Name: "n", Ref: kit.Sp(*e.Ref)}},
+					{Kind: "delete", Store: store, ID: rid}}}
+				h.Txs = append(h.Txs, tx)
+				// afterwards the target is still referenced: a delete must be refused or cascade to the newcomer
+				h.Txs = append(h.Txs, kit.TxSpec{Ops: []kit.Op{{Kind: "delete", Store: "targets", ID: *e.Ref}}})
+				return h
+			}
+		}
 		return h
 	}
 	if rapid.IntRange(0, 3).Draw(t, "burst") != 0 {
